@@ -357,6 +357,30 @@ PROPS["C18"] = {
     "thorough": {"scale": 6, "shards": 16, "timeout": 1500},
 }
 
+PROPS["C19"] = {
+    "pkg": "c19",
+    "variants": [
+        {"name": "seq", "kinds": ["c19.seq"]},
+        {"name": "conc", "race": True, "kinds": ["c19.conc"], "shards": {"thorough": 8}},
+    ],
+    "technique": "differential property testing against a fresh slog.TextHandler over generated records (all attribute kinds, hostile bytes), WithAttrs derivation trees and record reuse; concurrent Handle batches under the race detector on a deliberately non-thread-safe, overlap-detecting writer",
+    "level_text": ("Generated-input search with a reference renderer: for every (handler node, record) the output must be exactly one newline-terminated JSON object "
+                   "with exactly the members severity (ERROR iff level >= 8) and message, the decoded message equal to the line a fresh slog.TextHandler with the same "
+                   "options prints for a clone of the record with the node's accumulated attributes appended; records are built by 0-3 AddAttrs calls and handed to "
+                   "several handlers of a derivation tree (depth <= 8, siblings), so shared record state and sibling leakage are observable; Enabled(l) is compared "
+                   "with l >= configured for 16 levels on every node. Concurrent variant (-race): 2-8 goroutines handle all pairs at once; no race report, no "
+                   "overlapping Write on the shared writer, and the multiset of output lines equals the expected multiset. Exploration."),
+    "level_note": "Trusted: log/slog TextHandler and encoding/json of go1.24.2 as the reference; the decoded message is compared, so HTML-escaping choices of the JSON layer are not flagged. WithGroup is documented to panic and is not called. Interleavings in the concurrent variant are sampled.",
+    "rule": ("Options: nil, nil level, levels {-100,-8,-4,0,2,4,8}, ReplaceAttr nil or RemoveTime+ReplaceLevel. Records: levels {-8,-4,0,4,7,8,9,12}, zero or fixed time, "
+             "messages and keys from hostile strings (quotes, =, newlines, control bytes, invalid UTF-8, U+2028, empty), 15 attribute kinds incl. nested/empty groups, "
+             "[]byte, errors, TextMarshaler, NaN/Inf, nil Any, empty Attr. Non-trivial (seq): a handler at depth >= 2 in a tree with >= 2 derivations, or a record "
+             "with > 5 attributes, or a line needing quoting; (conc): every batch. distinct = distinct case."),
+    "assumptions": ["if the reference TextHandler itself returns an error for a record (e.g. a failing marshaler) the pair is skipped and counted"],
+    "expect_classes": {"seq:record-handled-by-several-handlers": ("c19.seq", 0.3), "seq:record-with->5-attributes": ("c19.seq", 0.2), "seq:tree-with-siblings": ("c19.seq", 0.2)},
+    "quick": {"scale": 1, "shards": 1, "timeout": 600},
+    "thorough": {"scale": 6, "shards": 16, "timeout": 1500},
+}
+
 ALL_IDS = ["C%02d" % i for i in range(1, 21)]
 NOT_APPLICABLE = [
     {"property_id": pid, "reason": "check not built yet in this revision of the harness (work in progress; see DESIGN.md section 9)"}
